@@ -26,7 +26,14 @@ package iavl
 
 //@ func (*nodeDB).GetNode(ndb, nk) (res, err)
 //@   assumed persistence boundary (DESIGN §5): the bytes stored under a node key decode to the persisted subtree dbview(key); cache sharing is abstracted (the returned node is treated as a fresh object, committed nodes being immutable up to nframe)
+//@   props C16
 //@   requires ndb != nil
+//@   bodyrequires nk == nil || len(nk) == 12 || len(nk) == 32
+//@   callsite nodeDB).legacyNodeKey [legacy-by-length] len(nk) == 32 && arg1 == nk
+//@   callsite nodeDB).nodeKey@1 [new-format] len(nk) != 32 && arg1 == nk
+//@   callsite MakeLegacyNode [legacy-decode] len(nk) == 32 && arg0 == nk && arg1 == buf && buf != nil
+//@   callsite MakeNode [new-decode] len(nk) != 32 && arg0 == nk && arg1 == buf && buf != nil
+//@   callsite nodeDB).nodeKey@2 [rekeyed-fallback] len(nk) != 32 && buf == nil && nKey.nonce == 1
 //@   ensures err == nil ==> res != nil && fresh(res) && !inptr[res] && valid(res) && view(res) == dbview(c_ord(cntOf(nk))) && res.nodeKey != nil && res.leftNode == nil && res.rightNode == nil
 //@   ensures nframe(old(heap(N)), heap(N), old(na))
 //@   modifies nodeDB.*[*], Statistics.*[*]
